@@ -33,6 +33,15 @@ size_t strlen(const char *s)
 	__CPROVER_assume(g_str_k <= ((size_t)1 << 60));	/* ghost index fits ptrdiff_t */
 	__CPROVER_assume(n < ROOM(s) && n <= ((size_t)1 << 60));
 	__CPROVER_assume(s[n] == 0);
+#ifdef VERIF_STRLEN_HINT
+	/* the harness states where the first NUL of ONE designated string is (an assumption about
+	 * that input: it ranges over the strings whose length is g_strlen_hint_n) */
+	{
+		extern const char *g_strlen_hint_s; extern size_t g_strlen_hint_n;
+		if (s == g_strlen_hint_s)
+			__CPROVER_assume(n == g_strlen_hint_n);
+	}
+#endif
 	/* first NUL: no earlier NUL at position 0 or at the ghost index */
 	__CPROVER_assume(n == 0 || s[0] != 0);
 	__CPROVER_assume(!(g_str_k < n) || s[g_str_k] != 0);
